@@ -35,8 +35,26 @@ def _parse(out):
     return viols, stats
 
 
+TIE = "Dawn.Ties.EnvReason.reasonPrecedence_ok"
+
+
+def _precedence_tie(c):
+    """tie 1 for this stream: the order of the cases of the reason switch in runTarget.Evaluate, regenerated from the
+    tree by the Env extractor and compared by the kernel (lean/Dawn/Ties/EnvReason.lean); counted with the check's obligations"""
+    c.extract("Env")
+    ok, out = c.lake_build(["Dawn.Ties.EnvReason"])
+    good = c.audit(["Dawn.Ties.EnvReason"], [TIE]) if ok else {}
+    c.coverage["obligations"] = c.coverage.get("obligations", 0) + 1
+    c.coverage["theorems"].append({"name": TIE, "axioms": sorted(good[TIE]) if good.get(TIE) else None, "ok": bool(good.get(TIE))})
+    if good.get(TIE):
+        c.coverage["discharged"] = c.coverage.get("discharged", 0) + 1
+    else:
+        c.broken.append("theorem " + TIE)
+
+
 def run_reason_stream(c):
     """adds the stream `env.reason` to the running check; violations are reported under the check's property"""
+    _precedence_tie(c)
     before = list(c.broken)
     exe = _harness(c)
     if not exe:
